@@ -213,7 +213,23 @@ func check(c Case) (string, verdict) {
 		if t1.panic != "" || t2.panic != "" || t4.panic != "" {
 			return fmt.Sprintf("%s panics on a prefix of %s: %s%s%s", cfg.name, c.Shown, t1.panic, t2.panic, t4.panic), t1
 		}
-		if t2.seconds > 0.05 && t4.seconds > 0.01 && t1.seconds/t2.seconds > 5 && t2.seconds/t4.seconds > 5 {
+		worse := func() bool {
+			return t2.seconds > 0.05 && t4.seconds > 0.01 && t1.seconds/t2.seconds > 5 && t2.seconds/t4.seconds > 5
+		}
+		// wall-clock times on a busy machine are noisy (a quadratic input measured 5.2x / 7.4x
+		// with three other jobs running): a trend has to show in the minimum of three
+		// measurements per size before it counts
+		for rep := 0; rep < 2 && worse(); rep++ {
+			for _, m := range []struct {
+				t *verdict
+				n int
+			}{{&t1, len(text)}, {&t2, len(text) / 2}, {&t4, len(text) / 4}} {
+				if again := runOne(cfg, text[:m.n], 60*time.Second); !again.hang && again.panic == "" && again.seconds < m.t.seconds {
+					m.t.seconds = again.seconds
+				}
+			}
+		}
+		if worse() {
 			return fmt.Sprintf("%s scales worse than quadratically on %s: %.2fs / %.2fs / %.2fs for n, n/2, n/4 bytes (n=%d)", cfg.name, c.Shown,
 				t1.seconds, t2.seconds, t4.seconds, len(text)), t1
 		}
